@@ -14,10 +14,10 @@ def main(ids):
     seeds = sorted(d for d in os.listdir(f"{V}/seeded") if re.fullmatch(r"C\d\d-\d+", d))
     if ids:
         seeds = [s for s in seeds if s in ids]
-    wt = "/tmp/matrix_wt"
+    wt = os.environ.get("MATRIX_WT", "/tmp/matrix_wt")
     sh(f"git -C /repo worktree remove --force {wt}; rm -rf {wt}")
     sh(f"git -C /repo worktree add -q --detach {wt} HEAD")
-    env = dict(os.environ, SYMGRID_REPO_SRC=f"{wt}/src", SYMGRID_EVIDENCE_DIR="/tmp/matrix_evidence", SYMGRID_SCRATCH_DIR="/tmp/matrix_scratch", SYMGRID_PROCS="8")
+    env = dict(os.environ, SYMGRID_REPO_SRC=f"{wt}/src", SYMGRID_EVIDENCE_DIR=wt + "_evidence", SYMGRID_SCRATCH_DIR=wt + "_scratch", SYMGRID_PROCS="8")
     for sid in seeds:
         d = f"{V}/seeded/{sid}"
         prop = sid.split("-")[0]
@@ -27,7 +27,7 @@ def main(ids):
             results["apply"] = "patch no longer applies to the current HEAD: " + ap.stderr[:200]
         else:
             for chk in [prop] + EXTRA.get(sid, []):
-                r = subprocess.run(f"timeout 1500 {V}/check {chk} --tier quick", shell=True, capture_output=True, text=True, env=env, cwd=V)
+                r = subprocess.run(f"timeout 3000 {V}/check {chk} --tier quick", shell=True, capture_output=True, text=True, env=env, cwd=V)
                 last = (r.stdout.strip().splitlines() or [""])[-1]
                 viol = [l for l in r.stdout.splitlines() if l.startswith("VIOLATION")]
                 first = next((l for l in r.stdout.splitlines() if l.startswith("  obligation=")), "")
@@ -43,7 +43,7 @@ def main(ids):
                     status="detected" if detected else ("outside the claimed scope / not detected" if all(isinstance(r, dict) and r["exit"] == 0 for r in results.values()) else "inconclusive (exit 2) or patch conflict"))
         json.dump(meta, open(f"{d}/meta.json", "w"), indent=1)
         print(sid, "->", meta["status"], {c: (r["exit"] if isinstance(r, dict) else r) for c, r in results.items()}, flush=True)
-    sh(f"git -C /repo worktree remove --force {wt}; rm -rf {wt} /tmp/matrix_evidence /tmp/matrix_scratch")
+    sh(f"git -C /repo worktree remove --force {wt}; rm -rf {wt} {wt}_evidence {wt}_scratch")
 
 
 if __name__ == "__main__":
